@@ -20,6 +20,7 @@ import gen_depack_limits
 import random
 import shutil
 import synthmods
+import liars
 
 LEVEL = "proof"
 MANIFEST = dict(
@@ -175,6 +176,12 @@ def run(ck):
     shards = [(exe, ck.seed * 2003 + 13 * i, 0, per, scratch, files) for i in range(14)]
     # bombs: two shards, few cases each (every case picks one of the bombs, mutated or intact)
     shards += [(exe, ck.seed * 2003 + 901 + i, 0, 10 if quick else 60, scratch, bombs) for i in range(2)]
+    # archives whose headers declare far more than they hold (LZX incl. merged groups, zip, ARC, LHA, MMCMP)
+    liar_dir = os.path.join(scratch, "liars-%d" % ck.seed)
+    shutil.rmtree(liar_dir, ignore_errors=True)
+    liar_files = liars.write_set(random.Random(ck.seed * 31337 + 11), liar_dir, 64 if quick else 400)
+    ck.note("declared_size_liar_archives", len(liar_files))
+    shards += [(exe, ck.seed * 2003 + 951 + i, 0, 90 if quick else 1500, scratch, liar_files) for i in range(2)]
     worst = {"cpu": None, "peak": None, "big": None, "plain_peak": None, "plain_big": None, "plain_cpu": None}
     n = 0
     for (rows, fails), sh in zip(vlib.pmap(run_res_shard, shards), shards):
